@@ -342,6 +342,42 @@ fn c08_group(s: &mut Sink, eng: Eng, c: &C08Case) {
     s.sample(&format!("c08-depth{}", c.depth), || json!({"descriptor": rp, "program": isa::listing(&c08_program(c, &c08_arg_tuples()[0]))}));
 }
 
+/// Helpers registered on a fixed-metadata VM before the program is loaded with other offsets.
+fn c08_fixed_reload(s: &mut Sink, eng: Eng) {
+    for (i, id) in REG_IDS.iter().enumerate() {
+        for (o0, o1) in [((0usize, 0usize), (0x40usize, 0x50usize)), ((0x40, 0x50), (0x40, 0x50)), ((0x40, 0x50), (0, 8)), ((0, 8), (0x50, 0x40))] {
+            let bytes = isa::enc(&[isa::mov64i(1, 1), isa::mov64i(2, 2), isa::mov64i(3, 3), isa::mov64i(4, 4), isa::mov64i(5, 5), I::new(0x85, 0, 0, 0, *id as i32), isa::EXIT]);
+            let rp = json!({"kind":"none"});
+            let class = "helper-call@fixed-reload";
+            s.count("evaluations", 1);
+            s.count("states", 1);
+            s.count("transitions", 4);
+            s.count("traces_validated_against_impl", 1);
+            s.count("distinct_nontrivial", 1);
+            let pkt = Buf::new(16, 0);
+            log_reset();
+            let r = catch(|| -> Result<Out, String> {
+                let mut vmx = AnyVm::new(VmKind::Fixed(o0.0, o0.1), None)?;
+                vmx.register_helper(*id, stub(i))?;
+                vmx.set_program(&bytes, o1)?;
+                vmx.compile(eng)?;
+                Ok(vmx.exec_out(eng, pkt.raw(), vm::empty_raw()))
+            });
+            let log = log_get();
+            match r {
+                Ok(Ok(Out::Ok(v))) => {
+                    let want = ret_value(i as u8, [1, 2, 3, 4, 5]);
+                    if log.len() != 1 || log[0].0 as usize != i || v != want {
+                        s.violation(&format!("{}/{class}/wrong-helper", eng.name()), format!("new(None, {o0:?}); register_helper({id:#x}); set_program(.., {o1:?}); execute: returned {v:#x} after {} invocations, expected {want:#x} from recorder {i}", log.len()), rp);
+                    }
+                }
+                Ok(Ok(other)) => s.violation(&format!("{}/{class}/err", eng.name()), format!("new(None, {o0:?}); register_helper({id:#x}); set_program(.., {o1:?}); execute: {other:?}"), rp),
+                Ok(Err(e)) | Err(e) => s.violation(&format!("{}/{class}/err", eng.name()), format!("new(None, {o0:?}); register_helper({id:#x}); set_program(.., {o1:?}); compile: {e}"), rp),
+            }
+        }
+    }
+}
+
 pub fn run_c08(s: &mut Sink) {
     let thorough = s.tier == Tier::Thorough;
     s.meta.insert("alphabet".into(), json!({
@@ -399,6 +435,16 @@ pub fn run_c08(s: &mut Sink) {
                 }
             }
         }
+    }
+    for eng in [Eng::Interp, Eng::Jit, Eng::Cl] {
+        let idx = g;
+        g += 1;
+        if !s.take(idx) {
+            continue;
+        }
+        let rp = json!({"kind":"none"});
+        s.mark(idx, &format!("{}/helper-call@fixed-reload", eng.name()), &rp);
+        run_group(s, eng, "helper-call@fixed-reload", &rp, move |cs| c08_fixed_reload(cs, eng));
     }
     s.done("helper calls");
 }
